@@ -609,6 +609,10 @@ class HistState:
             return 'ERR ' + type(e).__name__
         except AttributeError as e:
             return 'ERR AttributeError'
+        except IndexError:
+            if t in ('nins', 'ninsl', 'ndel', 'ntext', 'decl'):
+                return 'ERR NoSuchPath'     # the history addresses a nested list that is not there (any more)
+            raise
         if r is None:
             return 'NONE'
         if isinstance(r, int) and not isinstance(r, bool):
